@@ -32,7 +32,7 @@ func init() {
 	core.Register(&core.Prop{
 		ID:         "C18",
 		Title:      "Knapsack, subset-sum solvers and maximal-clique enumeration are exact",
-		Quick:      9000,
+		Quick:      30000,
 		Thorough:   300000,
 		Gen:        gen,
 		Corpus:     corpus,
@@ -42,6 +42,7 @@ func init() {
 		Rule: "dp cases: ≥ 3 items and at least one knap/solv op that did not panic; map cases: ≥ 2 keys and one query; " +
 			"graph cases: ≥ 3 vertices, ≥ 1 edge and one query; distinct by hash of the case lines",
 		Classify: classify,
+		Shrink:   shrink,
 		Parallel: true,
 		Extras: []core.Extra{
 			{Name: "all-graphs-small", Run: exhaustiveGraphs},
